@@ -9,6 +9,13 @@ import ParryModel.C05.Theorems8
 import ParryModel.C05.Theorems9
 import ParryModel.C05.Theorems10
 import ParryModel.C05.Theorems11
+import ParryModel.C05.Theorems12
+import ParryModel.C05.Theorems13
+import ParryModel.C05.Theorems14
+import ParryModel.C05.Theorems15
+import ParryModel.C05.Theorems16
+import ParryModel.C05.Theorems17
+import ParryModel.C05.Theorems18
 /-!
 # C05 property theorems (umbrella file)
 
@@ -26,5 +33,12 @@ import ParryModel.C05.Theorems11
 * `Theorems9.lean` — fu4: height-field cell triangles are non-degenerate; tetrahedron vertex c / d branches.
 * `Theorems10.lean` — fu4: the edge pseudo-normals of `compute_pseudo_normals` are the sums of the normals of the faces sharing the edge.
 * `Theorems11.lean` — fu4: every triangle of `HeightField::triangles()` is non-degenerate; nearest-point theorem for an actual field.
+* `Theorems12.lean` — fu5: tetrahedron face regions (`check_face` sound / optimal / never for members / symmetric in the determinants).
+* `Theorems13.lean` — fu5: the whole tetrahedron cascade: every vertex / edge / face answer is the nearest member; no assert; `OnSolid` only for `solid = true`.
+* `Theorems14.lean` — fu5: tetrahedron members are fixed; interior points of a non-degenerate tetrahedron get `(true, pt)` / `OnSolid` (`solid = true`) or the documented `unimplemented!()` (`solid = false`); flag `true` only with `OnSolid`.
+* `Theorems15.lean` — fu5: the tetrahedron's default methods (`Tet.lean`): no panic with `solid = true`, `contains` on interior points, distance never negative, max-dist, posed projection nearest in the posed tetrahedron.
+* `Theorems16.lean` — fu5: local forms of the vertex pseudo-normal test for the model's own `compute_pseudo_normals` (only incident faces; inside at locally convex corners, outside at reflex corners / blunt normal cones).
+* `Theorems17.lean` — fu5: tetrahedron `distance_to_local_point` / `_with_max_dist` against the set (distance to the tetrahedron; `None` iff the bound is below it).
+* `Theorems18.lean` — fu5: converses `tet_edge_complete` / `tet_face_complete`: the edge and face tests of the tetrahedron cascade fire on the whole Voronoi region of their feature.
 `./mkaudit C05` collects the public `theorem`s of every `Theorems*.lean`.
 -/
